@@ -45,9 +45,16 @@ def ensure_facts(config="dev", repo=REPO, verbose=False):
     # bound the cache: keep the 6 most recently used fact directories
     if os.path.isdir(cache_root):
         olds = [os.path.join(cache_root, o) for o in os.listdir(cache_root) if "-tmp-" not in o]
-        olds.sort(key=lambda p_: os.path.getmtime(p_), reverse=True)
-        for o in olds[6:]:
-            shutil.rmtree(o, ignore_errors=True)
+        def _mt(p_):
+            try:
+                return os.path.getmtime(p_)
+            except OSError:
+                return 0
+        olds.sort(key=_mt, reverse=True)
+        for o in olds[8:]:
+            # never evict something a concurrent check may be reading
+            if time.time() - _mt(o) > 1800:
+                shutil.rmtree(o, ignore_errors=True)
         for o in os.listdir(cache_root):
             po = os.path.join(cache_root, o)
             if "-tmp-" in o and time.time() - os.path.getmtime(po) > 600:
@@ -74,6 +81,9 @@ def ensure_facts(config="dev", repo=REPO, verbose=False):
         # lost a race with a parallel check: theirs is as good as ours
         shutil.rmtree(tmp, ignore_errors=True)
     return d, hsh, True
+
+
+CURRENT = None
 
 
 class Fn:
@@ -180,6 +190,33 @@ class Facts:
             for k, v in raw["externals"].items():
                 self.externals.setdefault(k, v)
         self._qualify_calls()
+        self._promoted_consts()
+        global CURRENT
+        CURRENT = self
+
+    def _promoted_consts(self):
+        """a promoted body that only materialises a constant (`_0 = &_1; _1 = const X`): remember X"""
+        self.promoted_const = {}
+        for name, fn in self.fns.items():
+            if fn.kind != "Promoted":
+                continue
+            consts = []
+            other = False
+            for b in fn.blocks:
+                for st in b["stmts"]:
+                    if st["k"] != "assign":
+                        continue
+                    rv = st["rv"]
+                    if rv["k"] == "use" and rv["ops"][0].get("k") == "const":
+                        consts.append(rv["ops"][0])
+                    elif rv["k"] in ("ref", "aggregate", "cast", "use"):
+                        continue
+                    else:
+                        other = True
+                if b["term"]["k"] not in ("return", "goto"):
+                    other = True
+            if len(consts) == 1 and not other:
+                self.promoted_const[name] = consts[0]
 
     def _qualify_calls(self):
         """Inside a dependency crate its own items are printed without the crate name, while rws prints them with it
